@@ -314,9 +314,10 @@ pub(crate) fn hierarchical_identifier_method_call_root(
     s: Span,
 ) -> IResult<Span, HierarchicalIdentifier> {
     let (s, a) = opt(root)(s)?;
+    // the component that follows may itself be indexed (a[1].b[2].f())
     let (s, b) = many0(terminated(
         triple(identifier, constant_bit_select, symbol(".")),
-        peek(pair(identifier, symbol("."))),
+        peek(pair(identifier, alt((symbol("."), symbol("["))))),
     ))(s)?;
     let (s, c) = identifier(s)?;
     Ok((s, HierarchicalIdentifier { nodes: (a, b, c) }))
